@@ -77,6 +77,9 @@ func baseAlphabet() []msg {
 		{"accA", shipx.AccessMethods("A"), "access"},
 		{"accB", shipx.AccessMethods("B"), "access"},
 		{"accEmpty", shipx.AccessMethods(""), "access"},
+		// SHIP IDs containing quotes and sequences the EEBUS JSON rewrite looks for (Q1 and Q2 differ only there)
+		{"accQ1", shipx.AccessMethods(`Q \"r{}\" 1`), "access"},
+		{"accQ2", shipx.AccessMethods(`Q \"r[]\" 1`), "access"},
 		{"accNoID", shipx.AccessMethodsRaw(""), "access"},
 		{"accNumID", shipx.AccessMethodsRaw(`{"id":5}`), "access"},
 		{"accNullID", shipx.AccessMethodsRaw(`{"id":null}`), "access"},
@@ -121,7 +124,7 @@ func alphabetFor(sel string) []msg {
 		}
 		return out
 	case "access":
-		keep := set("init", "helloReady", "protAnnounce", "protSelect", "pinNone", "accReq", "accA", "accB", "accEmpty", "accNoID", "accNumID", "accNullID", "data1", "notJSON")
+		keep := set("init", "helloReady", "protAnnounce", "protSelect", "pinNone", "accReq", "accA", "accB", "accEmpty", "accQ1", "accQ2", "accNoID", "accNumID", "accNullID", "data1", "notJSON")
 		var out []msg
 		for _, m := range all {
 			if keep[m.id] {
@@ -696,7 +699,7 @@ func (w *world) monitors(hist []string, from int, pre model.ShipMessageExchangeS
 				break
 			}
 		}
-		idOf := map[string]string{"accA": "A", "accB": "B", "accEmpty": ""}
+		idOf := map[string]string{"accA": "A", "accB": "B", "accEmpty": "", "accQ1": `Q "r{}" 1`, "accQ2": `Q "r[]" 1`}
 		id, known := idOf[presented]
 		if !known {
 			simrt.Fail("C09|setup-without-id", "remote device set up although the peer presented no usable SHIP ID (%q)", presented)
@@ -809,7 +812,7 @@ func models(r *hx.Run) []hx.GModel {
 		}
 	case "C09":
 		for _, server := range []bool{true, false} {
-			for _, id := range []string{"", "A"} {
+			for _, id := range []string{"", "A", `Q "r{}" 1`} {
 				cfgs = append(cfgs, cfg{server: server, trust: "paired", allow: true, shipID: id, alpha: "access"})
 			}
 		}
